@@ -32,6 +32,11 @@ func mkDesc(a absDesc, r *rand.Rand, viaDecode bool) scte35.SegmentationDescript
 		cmd.SetHasPTS(true)
 		s.SetCommandInfo(cmd)
 		s.SetPTS(gots.PTS(a.PTS))
+		if r != nil && r.Intn(2) == 0 {
+			// the same signal time reached through another split into command pts_time + pts_adjustment
+			s.SetPTS(gots.PTS(r.Int63n(1 << 33)))
+			s.SetAdjustPTS(gots.PTS(a.PTS))
+		}
 	}
 	d := scte35.CreateSegmentationDescriptor()
 	d.SetTypeID(scte35.SegDescType(a.Type))
